@@ -286,6 +286,30 @@ fn misc() -> (usize, Vec<Value>) {
             let mut all = first[..k2].to_vec(); all.extend(rest);
             check!("iterator interleaved", all == src, "{:?} vs {:?}", all, src);
         }
+        // iterator over items with a destructor, advanced by C into ONE reused output slot (`T out; while (next(&out) == 0)
+        // consume(out);`): the slot is output only - whatever bits it holds, nothing in it is destroyed by advancing
+        {
+            static LOG: std::sync::Mutex<Vec<u64>> = std::sync::Mutex::new(Vec::new());
+            struct Tok(u64, [u64; 2]);
+            impl Drop for Tok { fn drop(&mut self) { LOG.lock().unwrap().push(self.0); } }
+            for len in 0..5u64 {
+                LOG.lock().unwrap().clear();
+                let mut it = (1..=len).map(|i| Tok(i, [i, i]));
+                let mut ci: CIterator<Tok> = (&mut it).into();
+                let mut slot = std::mem::MaybeUninit::<Tok>::uninit();
+                std::ptr::write_bytes(slot.as_mut_ptr() as *mut u8, 0xEE, std::mem::size_of::<Tok>());
+                let mut taken: Vec<Tok> = vec![];
+                while cview::cv_iter_next(vpm(&mut ci), slot.as_mut_ptr() as *mut u64) == 0 {
+                    taken.push(std::ptr::read(slot.as_ptr()));   // the C caller moves the item out and owns it
+                }
+                let during: Vec<u64> = LOG.lock().unwrap().clone();
+                let got: Vec<u64> = taken.iter().map(|t| t.0).collect();
+                drop(taken);
+                let after: Vec<u64> = LOG.lock().unwrap().clone();
+                check!("iterator of droppable items", got == (1..=len).collect::<Vec<_>>() && during.is_empty() && after == got,
+                       "len {}: items {:?}, destroyed while C advanced {:x?}, destroyed in total {:x?}", len, got, during, after);
+            }
+        }
         // tags
         let some: COption<u64> = Some(77u64).into(); let none: COption<u64> = None.into();
         check!("option tags", cview::cv_opt_tag(vp(&some)) == 1 && cview::cv_opt_value(vp(&some)) == 77 && cview::cv_opt_tag(vp(&none)) == 0, "Some tag {} None tag {}", cview::cv_opt_tag(vp(&some)), cview::cv_opt_tag(vp(&none)));
